@@ -214,6 +214,7 @@ Fixpoint optimize (fuel : nat) (r : val) : ores :=
             match match_a_q r with
             | None => Done r
             | Some (call, args) =>
+                if OPT_VAR_CHANGE_SKIPS_PAIR_HEAD && (match call with Cons (Cons _ _) _ => true | _ => false end) then Done r else
                 let new := sub_args call args in
                 if seems_constant new then optimize f new
                 else match to_list new with
